@@ -19,6 +19,8 @@ HOT = [
     # change or merge, a combining overlay that composes with < and >, exotic line breaks
     "\x80", "\x9f", "\u212b", "\u2126", "\ufb01", "\uff21", "e\u0301", "\u0338", "<\u0338", "\u037e", "\u00df", "\u0130",
     "\x0b", "\x1c", "\x1d", "\u2029",
+    # sequences that mean something to regex replacement templates, format strings and escape processors
+    "\\1", "\\n", "\\g<0>", "\\d", "\\\\", "$1", "%s", "{0}", "\\u2014", "%(x)s",
 ]
 
 scalar_chars = st.characters(exclude_categories=["Cs"])
@@ -154,7 +156,7 @@ def layout_leaf(newlines: bool = False, meta: bool = True, spaces: bool = False,
         leaves.append(st.builds(lambda s, h: {"k": "html" if h else "text", "s": s, "blank": True}, st.sampled_from(list(blank)), st.sampled_from([False, False, True])))
     leaves += [
         st.builds(lambda s: {"k": "text", "s": s}, txt),
-        st.builds(lambda s: {"k": "text", "s": s}, txt),
+        st.builds(lambda s, sub: {"k": "text", "s": s, "sub": True} if sub else {"k": "text", "s": s}, txt, st.sampled_from([False, False, True])),  # also str-subclass instances
         st.builds(lambda s: {"k": "html", "s": "<i>" + s + "</i>"}, txt),
         st.builds(lambda s: {"k": "html", "s": s}, txt),
         st.builds(lambda s: {"k": "repr", "s": "<u>" + s + "</u>"}, txt),
